@@ -189,6 +189,21 @@ CHECKS["C18"] = dict(level=MC, design="DESIGN.md section 6, C18",
          "and call edges of instructions whose operand was A lead to B's referent, that return edges follow the calls (known "
          "finding), and that invalid requests are refused.")
 
+CHECKS["C07"] = dict(level=MC, design="DESIGN.md section 6, C07",
+    note="Bounds: four x86-64 layouts (2-3 functions, function-less code block, data block, function named main, entry point, no "
+         "function tables); AllBlocksScope / AllFunctionsScope(ENTRY, EXIT) / SingleBlockScope x ENTRY/EXIT/ANYWHERE; name filters "
+         "literal, compiled regex, MAIN_NAME, ENTRYPOINT_NAME, no match (names are concrete: regular expressions over symbolic "
+         "strings are outside the engine); 1-3 passes through the real PassManager.run with 1-4 registrations mixed with insert_at. "
+         "All instruction sizes are z3 integers: in the symbolic run the decoder is a stub reporting the scenario's atoms; the "
+         "concrete replays (one per path) use the real capstone decoder, which validates the stub. Trusted: symx, oracle/listing.py, "
+         "the designation rules in harness/scopes.designated.",
+    technique=_SRH_TECH + "; stub instruction decoder with symbolic sizes",
+    text="For every registration z3 decides (for all instruction sizes) that the section bytes equal the listing model in which "
+         "the patch was spliced exactly once into each block the scope designates - at offset 0 (ENTRY/ANYWHERE) or immediately "
+         "before the terminator / at the end (EXIT) - and into no other block, in registration order at equal locations across "
+         "passes, and that the InsertionContext of each invocation names the original block, that offset and the block's "
+         "function (None outside functions).")
+
 NOT_YET = "check not built yet in this round (planned, see DESIGN.md section 6)"
 
 manifest = {
